@@ -334,8 +334,10 @@ def _occ(text, anchor, n):
 
 
 class Unit:
-    def __init__(self, name):
+    def __init__(self, name, external=()):
         self.name = name
+        self.external = set(external)       # functions whose body is not verified in this run (reported as undecided)
+        self.undecided = {}                 # function -> reason
         self.tpl_path = os.path.join(VERIF, "contracts", name + ".rs")
         self.items = []       # evidence: what was copied
         self.linemap = []     # (gen_line_start, gen_line_end, file, src_line_start, label)
@@ -413,6 +415,10 @@ class Unit:
         for r in rws:
             text, n = RW[r](text)
             self._use("R2" if r == "R2u" else r, n)
+        if path in self.external:
+            edits = []
+            if not any('external_body' in x for x in attrs):
+                attrs.append("#[verifier::external_body]")
         # ghost / annotation injections (never touch executable text)
         for e in edits:
             where, rest = e.split(None, 1)
@@ -422,7 +428,14 @@ class Unit:
             anchor = anchor.strip()
             if m:
                 anchor, occ = m.group(1), int(m.group(2))
-            idx = _occ(text, anchor, occ)
+            try:
+                idx = _occ(text, anchor, occ)
+            except Undecided as ex:
+                # the annotated place is gone: this function's obligations are undecided, the rest of the unit is still verified
+                self.undecided[path] = str(ex)
+                if not any('external_body' in x for x in attrs):
+                    attrs.append("#[verifier::external_body]")
+                continue
             if where == 'after':
                 idx += len(anchor)
             text = text[:idx] + ins + "\n" + text[idx:] if where == 'before' else text[:idx] + "\n" + ins + text[idx:]
@@ -502,9 +515,10 @@ VERIFICATION_MSGS = (
 )
 
 
-def run_unit(name, canary=False):
-    """Render + verify one unit. Returns dict with functions {name: success}, failures [...], times."""
-    u = Unit(name)
+def run_unit(name, canary=False, external=(), _depth=0):
+    """Render + verify one unit. Returns dict with functions {name: success}, failures [...], times.
+    A function Verus cannot process (dialect / lost anchor) is retried as external_body and reported as undecided."""
+    u = Unit(name, external)
     text = u.render()
     d = os.path.join(BUILD, "g")
     os.makedirs(d, exist_ok=True)
@@ -547,13 +561,26 @@ def run_unit(name, canary=False):
             failures.append(rec)
         else:
             other_errors.append(rec)
+    if (vr.get("encountered-vir-error") or other_errors) and _depth < 3:
+        # blame the copied functions that contain the offending lines and retry with their bodies left unverified
+        blamed = set()
+        for e in other_errors:
+            for sp in e["source"]:
+                if sp and sp["item"] in [i["path"] for i in u.items if i["kind"] == "fn"] and sp["item"] not in u.external:
+                    blamed.add(sp["item"])
+        if blamed:
+            r = run_unit(name, canary, set(external) | blamed, _depth + 1)
+            for b in blamed:
+                r["undecided_functions"][b] = "Verus cannot process the current body: " + "; ".join(e["message"] for e in other_errors if any(sp and sp["item"] == b for sp in e["source"]))[:300]
+            return r
     if vr.get("encountered-vir-error") or (other_errors and not failures) or (not vr.get("success") and not failures):
         raise Undecided("verus could not process unit %s (dialect/tool limit, not a verdict): %s" % (
             name, json.dumps([e["message"] + " @gen " + str(e["gen_line"]) + " " + e["text"] for e in other_errors][:5]) or p.stderr[-1500:]))
     return {"unit": name, "path": path, "verified": vr.get("verified", 0), "errors": vr.get("errors", 0),
             "functions": funcs, "failures": failures, "wall_s": round(wall, 2),
             "smt_ms": smt.get("smt-run", 0), "items": u.items, "rewrites": u.rewrites_used,
-            "verus_version": summary.get("verus", {}).get("version"), "text": text}
+            "verus_version": summary.get("verus", {}).get("version"), "text": text,
+            "undecided_functions": dict(u.undecided, **{f: "body not verified in this run" for f in u.external if f not in u.undecided})}
 
 
 ASSUMPTION_PATTERNS = [r'\bassume\s*\(', r'\badmit\s*\(', r'external_body', r'assume_specification', r'\buninterp\b', r'#\[verifier::external\]', r'external_type_specification']
